@@ -389,7 +389,7 @@ func (ce *CEnv) typeByName(name string) types.Type {
 				return tn.Type()
 			}
 		}
-		return nil
+		return ce.fv.eng.lookupTypeInNamedPackages(name[:i], name[i+1:])
 	}
 	switch name {
 	case "int":
@@ -428,6 +428,12 @@ func (ce *CEnv) typeByName(name string) types.Type {
 			if tn, ok := o.(*types.TypeName); ok {
 				return tn.Type()
 			}
+		}
+	}
+	// the package of the contract file that states the clause
+	if p := ce.fv.eng.packageByPath(ce.pkgPath); p != nil {
+		if tn, ok := p.Scope().Lookup(name).(*types.TypeName); ok {
+			return tn.Type()
 		}
 	}
 	return nil
@@ -1242,8 +1248,14 @@ func (ce *CEnv) specCall(sf *SpecFn, args []Expr) Val {
 		vals = append(vals, v)
 	}
 	if sf.Body != nil {
-		// inline
+		// inline; names in the body are resolved in the package of the contract file that defines the spec fn
 		sub := *ce
+		if sf.PkgPath != "" && sf.PkgPath != ce.pkgPath {
+			if p := fv.eng.packageByPath(sf.PkgPath); p != nil {
+				sub.pkg = p
+				sub.pkgPath = sf.PkgPath
+			}
+		}
 		sub.names = map[string]Val{}
 		for k, v := range ce.names {
 			sub.names[k] = v
